@@ -791,6 +791,16 @@ def extra_bevy(prop, tier, seed, profiles):
                     hist["reassign-checked"] += 1
                     if cur["pos"] != prev["pos"] + delta:
                         fail(L, "re-assigning the current key does not restart anything", o, str(prev["pos"] + delta))
+            # the same while the animator is disabled: the selector still installs the new key's timeline and rewinds the
+            # animator (nothing advances while disabled), so that it plays from its beginning once enabled again
+            if cfg["sel"] != "none" and nframes >= 1 and frame_key is not None and not prev["enabled"] and not other_ext and not moved_in_frame \
+                    and 3 not in prev["ev"] and prev["key"] is not None and cur["key"] == prev["key"] and prev["key"] != frame_key:
+                slots = cfg["sel"].split(",")
+                k = prev["key"]
+                if k < len(slots) and slots[k] != "-":
+                    hist["restart-disabled-checked"] = hist.get("restart-disabled-checked", 0) + 1
+                    if cur["pos"] != 0:
+                        fail(L, "changing the key of a disabled animator rewinds it (the new key's timeline will play from its beginning)", o, "position 0")
             if key_set and prev["key"] != frame_key and prev["enabled"] and not moved_in_frame and cur["key"] == prev["key"] and 3 not in prev["ev"]:
                 # (the key now differs from the key at the end of the last frame: assignments that cancel out, k -> j -> k
                 # between two frames, are not a key change as far as the systems can see)
